@@ -241,6 +241,11 @@ where
     r.frozen = false;
     match result {
         Ok(()) => {}
+        Err(TestError::Fail(why, value)) if last_fail.borrow().is_none() => {
+            // the closure never returned a Fail verdict: it panicked (harness defect, not a verdict)
+            r.inconclusive.push(format!("harness panic: {} on case {}", why, serde_json::to_string(&value).unwrap_or_default()));
+            r.count("inconclusive_cases", 1);
+        }
         Err(TestError::Fail(_, value)) => {
             // `value` is the shrunk case; last_fail holds the verdict of its last failing execution
             let (sig, reason, details) = last_fail.borrow().clone().unwrap_or_default();
